@@ -242,4 +242,26 @@ func genC16(e *emitter, tier string, seed uint64) {
 		e.run("C16.utxo", "1234", sc)
 		e.note("script.awkward-asm")
 	}
+	// data scripts made of short pushes (rendered as numbers in the node dialect's asm), every pair of lengths 0..5,
+	// each followed by more script: marshalling must leave the object as it was and the round trip must return it
+	for _, prefix := range []string{"6a", "006a"} {
+		for l1 := 0; l1 <= 5; l1++ {
+			for l2 := 0; l2 <= 5; l2++ {
+				b := mustHex(prefix)
+				b = append(append(b, byte(l1)), r.bytes(l1)...)
+				b = append(append(b, byte(l2)), r.bytes(l2)...)
+				b = append(b, 0x51, byte(r.n(256)))
+				sc := hex.EncodeToString(b)
+				tx := genTx(r, 1, 2, false)
+				for _, o := range tx.Outputs {
+					o.Satoshis %= 2100000000000001
+				}
+				tx.Outputs[r.n(2)].LockingScript = scr(b)
+				e.run("C16.tx", descTx(tx))
+				e.run("C16.out", "546", sc)
+				e.run("C16.utxo", "546", sc)
+				e.note("script.data-short-pushes")
+			}
+		}
+	}
 }
